@@ -430,6 +430,10 @@ where
             return None;
         }
 
+        if !COMPRESSED && symbol > *self.sigma.as_ref().unwrap() {
+            return None;
+        }
+
         if COMPRESSED && self.codes_encode.as_ref().unwrap()[symbol.as_() as usize].len == 0 {
             return None;
         }
